@@ -15,8 +15,9 @@ RULE = (
     "A case = a small signature, a pool of 3-6 expressions (some 'poisoned' with a division by a fluent or an interpreted "
     "function that raises) and a history of <= 30 (quick) / 50 calls on ONE environment: simplify, substitute(map) (maps "
     "that make a divisor zero fail inside the walk), constructor calls (some ill-typed), free_vars_extractor.get, "
-    "free_vars_oracle, names_extractor, ExpressionQuantifiersRemover, StateEvaluator.evaluate on a long-lived evaluator with "
-    "states that miss fluents.  Each call is repeated in a fresh environment built from the same specs; outcomes (exception "
+    "free_vars_oracle, names_extractor, remove_quantifiers on a long-lived ExpressionQuantifiersRemover interleaved with "
+    "add_object on its problem, StateEvaluator.evaluate on a long-lived evaluator with states that miss fluents (poisonous "
+    "divisions also sit inside quantifier bodies nested under other operators).  Each call is repeated in a fresh environment built from the same specs; outcomes (exception "
     "class, or printed result) must agree and every shared walker's stack must be empty after each call.  Non-trivial = "
     "history with >= 1 failing call followed by >= 1 later call on an expression sharing a sub-expression with it; distinct "
     "by hash of the history."
@@ -24,7 +25,7 @@ RULE = (
 SHARDS = {"quick": 8, "thorough": 16}
 PROFILE = gen.Profile(ifuns=True, max_fluents=5, max_objects=3, int_params=False, exists_eq_bias=True, undefined=False)
 
-OPS = ["simplify", "substitute", "construct", "freevars", "freevars_oracle", "names", "rmquant", "evaluate", "type"]
+OPS = ["simplify", "substitute", "substitute", "construct", "freevars", "freevars_oracle", "names", "rmquant", "rmquant", "add_object", "evaluate", "type"]
 
 
 @st.composite
@@ -50,6 +51,12 @@ def cases(draw):
             e = ["or", ["ifn", "boom", ["fl", "nz"]], e]
         elif k == 2:
             e = ["and", ["fl", "bz"], e, ["<", ["/", ["i", 6], ["+", ["fl", "nz"], ["i", 1]]], g.num_expr(scope, 1)]]
+        elif k == 3:
+            # the poisonous division sits in a quantifier body nested under another operator
+            qv = ["q0", ["user", g.pick(g.types)[0]]]
+            qs = {"params": scope["params"], "vars": scope["vars"] + [(qv[0], qv[1])]}
+            body = ["and", g.bool_expr(qs, 1), ["<=", ["/", g.num_expr(qs, 1), ["fl", "nz"]], ["i", 3]]]
+            e = [g.pick(["and", "or"]), [g.pick(["exists", "forall"]), [qv], body], e]
         pool.append(e)
     nops = 30
     ops = []
@@ -76,6 +83,9 @@ def cases(draw):
                 o["spec"] = ["not", pool[o["e"]]]
             else:
                 o["spec"] = ["/", ["i", 1], ["-", ["i", 2], ["i", 2]]]  # constant zero divisor
+        elif op == "add_object":
+            o["name"] = f"xo{len(ops)}"
+            o["type"] = g.pick(g.types)[0]
         elif op == "evaluate":
             o["missing"] = g.i(0, 3)  # how many fluents are missing in the state
             o["nz"] = g.pick([0, 1, 1, 2, -1])
@@ -105,6 +115,9 @@ class Side:
             model.pyvalue = pyvalue
         self.pool = [b.expr(e) for e in case["pool"]]
         self.se = StateEvaluator(b.problem)
+        from unified_planning.model.walkers import ExpressionQuantifiersRemover
+
+        self.qr = ExpressionQuantifiersRemover(b.env)  # long-lived, like the simulator's / compilers' own
 
     def walkers(self):
         env = self.b.env
@@ -116,6 +129,7 @@ class Side:
             "free_vars_oracle": env.free_vars_oracle,
             "names_extractor": env.names_extractor,
             "state_evaluator": self.se,
+            "quantifiers_remover": self.qr,
         }
 
     def do(self, o):
@@ -143,7 +157,10 @@ class Side:
             if op == "names":
                 return ("ok", sorted(env.names_extractor.extract_names(e)))
             if op == "rmquant":
-                return ("ok", str(ExpressionQuantifiersRemover(env).remove_quantifiers(e, b.problem)))
+                return ("ok", str(self.qr.remove_quantifiers(e, b.problem)))
+            if op == "add_object":
+                b.problem.add_object(o["name"], b.types[o["type"]])
+                return ("ok", len(b.problem.all_objects))
             if op == "evaluate":
                 from harness.refsim import ground_fluents
                 from harness.simcmp import ground_fluent_exps
@@ -213,7 +230,11 @@ def run(ctx, case):
     nontriv = False
     for step, o in enumerate(case["ops"]):
         got = shared.do(o)
-        fresh = Side(case).do(o)
+        fresh_side = Side(case)
+        for prev in case["ops"][:step]:
+            if prev["op"] == "add_object":  # the problem's objects are an argument of quantifier removal
+                fresh_side.do(prev)
+        fresh = fresh_side.do(o)
         if got != fresh:
             prev_fail = any(Side(case).do(p)[0] == "raised" for p in case["ops"][:step])
             raise Violation(
